@@ -434,6 +434,11 @@ def run_case(ctx, mon, cfg_id, terms, prods, start, kind, inputs_spec=None, rng=
             # the text is given in one of the documented forms: a string, a list of lines, any iterable of lines
             form = (len(text) + len(toks)) % 4
             src = text if form < 2 else text.split("\n") if form == 2 else iter(text.split("\n"))
+            if form == 2 and len(text) % 3 == 0 and toks:
+                # ... or an open text file: its lines keep their line ends (characters like any other: for a tokenizer
+                # that knows no such character that is a lexical error - a parsing error like any other)
+                src = io.StringIO(text + "\n")
+                ctx.count("texts_read_from_a_file_object")
             if not toks and form == 3:
                 src = iter([])          # ... also one that yields no line at all
             elif not toks and form == 2:
